@@ -19,8 +19,10 @@ import (
 	"io"
 	"log/slog"
 	"net/http"
+	"net/http/httptest"
 	"regexp"
 	"sort"
+	"strconv"
 	"strings"
 
 	"github.com/apache/arrow-go/v18/arrow"
@@ -286,6 +288,9 @@ type vf37Env struct {
 	External *ExternalLocationConfig
 	Auth     AuthenticateFunc
 	Compress bool // gzip request bodies + ask for a zstd response
+	// Chunked sends HTTP bodies without a declared length (ContentLength -1,
+	// Transfer-Encoding: chunked), as a streaming client or re-chunking proxy does.
+	Chunked bool
 	// ExtraMethods lets a check register more methods.
 	ExtraMethods func(s *Server)
 	// OnUnitStart/OnUnitEnd run around every unit (pipe: at the call boundary).
@@ -752,7 +757,7 @@ func (c *vf37HTTPClient) post(call int, k *vf37Kind, role, route string, body []
 	if c.env.OnUnitStart != nil {
 		c.env.OnUnitStart(u)
 	}
-	rec, pan := vfArrowPost(c.h, route, body, hdr...)
+	rec, pan := vf37Post(c.h, route, body, c.env.Chunked, hdr...)
 	u.Status, u.Hdr, u.Panic = rec.Code, rec.Header().Clone(), pan
 	u.Body = append([]byte(nil), rec.Body.Bytes()...)
 	u.Out = u.Body
@@ -766,6 +771,31 @@ func (c *vf37HTTPClient) post(call int, k *vf37Kind, role, route string, body []
 		c.env.OnUnitEnd(u)
 	}
 	return u
+}
+
+// vf37Post is vfArrowPost with an optional length-less body.
+func vf37Post(h http.Handler, path string, body []byte, chunked bool, hdr ...string) (*httptest.ResponseRecorder, any) {
+	if !chunked {
+		return vfArrowPost(h, path, body, hdr...)
+	}
+	// a reader type net/http cannot size: ContentLength is -1 (unknown)
+	req := httptest.NewRequest("POST", path, struct{ io.Reader }{bytes.NewReader(body)})
+	req.TransferEncoding = []string{"chunked"}
+	req.Header.Set("Content-Type", arrowContentType)
+	for i := 0; i+1 < len(hdr); i += 2 {
+		req.Header.Add(hdr[i], hdr[i+1])
+	}
+	rec := httptest.NewRecorder()
+	var panicked any
+	func() {
+		defer func() {
+			if rv := recover(); rv != nil {
+				panicked = rv
+			}
+		}()
+		h.ServeHTTP(rec, req)
+	}()
+	return rec, panicked
 }
 
 func vf37RunHTTP(hist []*vf37Kind, env *vf37Env) *vf37Run {
@@ -935,6 +965,17 @@ func (s *vf41Store) RoundTrip(r *http.Request) (*http.Response, error) {
 	s.fetches++
 	u := r.URL.String()
 	body, ok := s.objs[u]
+	if strings.HasPrefix(u, vf41URLcut) {
+		// the first n bytes of the two-batch stream: an upload torn at byte n
+		if n, err := strconv.Atoi(u[len(vf41URLcut):]); err == nil && n <= len(s.objs[vf41URL2]) {
+			body, ok = s.objs[vf41URL2][:n], true
+		}
+	} else if strings.HasPrefix(u, vf41URLtail) {
+		// n bytes of the two-batch stream followed by bytes that are not a message
+		if n, err := strconv.Atoi(u[len(vf41URLtail):]); err == nil && n <= len(s.objs[vf41URL2]) {
+			body, ok = append(append([]byte(nil), s.objs[vf41URL2][:n]...), 0xff, 0xff, 0xff, 0xff, 0x10, 0, 0, 0, 1, 2, 3, 4, 5, 6, 7, 8, 9, 10, 11, 12, 13, 14, 15, 16), true
+		}
+	}
 	resp := &http.Response{StatusCode: 200, Status: "200 OK", Proto: "HTTP/1.1", ProtoMajor: 1, ProtoMinor: 1,
 		Header: http.Header{}, Request: r}
 	if !ok {
@@ -957,6 +998,8 @@ const (
 	vf41URLtrunc  = "https://mem.test/obj/trunc"   // valid schema, truncated record batch
 	vf41URLloop   = "https://mem.test/obj/loop"    // data batch, then a pointer batch
 	vf41URLabsent = "https://mem.test/obj/missing" // 404
+	vf41URLcut    = "https://mem.test/obj/cut/"    // + n: two-batch stream cut after n bytes
+	vf41URLtail   = "https://mem.test/obj/tail/"   // + n: n bytes of it, then garbage
 )
 
 func (s *vf41Store) preload() {
